@@ -38,6 +38,19 @@ pub mod rows_c {
         pub fn as_ref(&self) -> &KCol {
             self
         }
+        // the Array methods a comparator may consult besides make_comparator
+        pub fn is_null(&self, row: usize) -> bool {
+            self.cells[row].is_none()
+        }
+        pub fn is_valid(&self, row: usize) -> bool {
+            self.cells[row].is_some()
+        }
+        pub fn len(&self) -> usize {
+            2
+        }
+        pub fn null_count(&self) -> usize {
+            self.cells[0].is_none() as usize + self.cells[1].is_none() as usize
+        }
     }
     /// carriers for the two Arrow names the region mentions by path
     pub mod arrow {
@@ -46,6 +59,12 @@ pub mod rows_c {
             pub struct SortOptions {
                 pub descending: bool,
                 pub nulls_first: bool,
+            }
+            impl Default for SortOptions {
+                /// Arrow's default: ascending, NULLs first
+                fn default() -> Self {
+                    SortOptions { descending: false, nulls_first: true }
+                }
             }
         }
         pub mod array {
@@ -515,6 +534,77 @@ pub mod merge_c {
         }
     }
     include!("/verif/kani/gen/playback_physical_operators_spillable__merge_c.rs");
+}
+
+/// C25: the sort_batch of spillable.rs (sorts every spilled run): same obligation as sort.rs's sort_batch -
+/// one sort column per key, in key order, with the key's direction and NULL placement; no limit (runs are
+/// sorted completely; the fetch is applied after the merge); every column taken with the indices.
+pub mod sortb_c {
+    use crate::planner::{NullOrdering, SortDirection};
+    include!("/verif/kani/inc/sort_carriers.rs");
+    /// the function imports these three by `use arrow::compute::{..}` inside its body
+    pub mod arrow {
+        pub mod compute {
+            pub use super::super::compute::lexsort_to_indices;
+            pub use super::super::{SortColumn, SortOptions};
+        }
+    }
+    include!("/verif/kani/gen/kx_c25_run_sort_batch.rs");
+
+    fn any_dir() -> SortDirection {
+        if kani::any() { SortDirection::Asc } else { SortDirection::Desc }
+    }
+    fn any_nulls() -> NullOrdering {
+        if kani::any() { NullOrdering::NullsFirst } else { NullOrdering::NullsLast }
+    }
+    #[kani::proof]
+    #[kani::unwind(5)]
+    fn c25_kx_run_sort_batch_asks_arrow_for_the_stated_order() {
+        let nk: usize = kani::any();
+        kani::assume(nk >= 1 && nk <= CAP);
+        let keys = [
+            SortExpr { expr: KExpr { col: kani::any() }, direction: any_dir(), nulls: any_nulls() },
+            SortExpr { expr: KExpr { col: kani::any() }, direction: any_dir(), nulls: any_nulls() },
+            SortExpr { expr: KExpr { col: kani::any() }, direction: any_dir(), nulls: any_nulls() },
+        ];
+        kani::assume(keys[0].expr.col < 50 && keys[1].expr.col < 50 && keys[2].expr.col < 50);
+        let nc: usize = kani::any();
+        kani::assume(nc >= 1 && nc <= CAP);
+        let mut cols = Vec::new();
+        let mut c = 0;
+        while c < nc {
+            cols.push(ArrayRef { id: c as u8, taken_with: None });
+            c += 1;
+        }
+        let rows: usize = kani::any();
+        let batch = RecordBatch { schema: KSchema { id: 9 }, cols, rows };
+        let out = kx_c25_run_sort_batch(&batch, &keys[..nk]).expect("no oracle fails");
+        assert!(out.schema == batch.schema && out.cols.len() == nc);
+        if rows == 0 {
+            let mut c = 0;
+            while c < nc {
+                assert!(out.cols[c] == batch.cols[c]);
+                c += 1;
+            }
+        } else {
+            let mut c = 0;
+            while c < nc {
+                assert!(out.cols[c].id == c as u8);
+                let idx = out.cols[c].taken_with.expect("every column is reordered");
+                assert!(idx.n == nk && idx.limit.is_none()); // a run is sorted completely
+                let mut k = 0;
+                while k < nk {
+                    let (id, desc, nf) = idx.keys[k];
+                    assert!(id == 100 + keys[k].expr.col);
+                    assert!(desc == (keys[k].direction == SortDirection::Desc));
+                    assert!(nf == matches!(keys[k].nulls, NullOrdering::NullsFirst));
+                    k += 1;
+                }
+                c += 1;
+            }
+        }
+    }
+    include!("/verif/kani/gen/playback_physical_operators_spillable__sortb_c.rs");
 }
 
 include!("/verif/kani/gen/playback_physical_operators_spillable.rs");
